@@ -1,0 +1,31 @@
+//go:build verif
+
+// Contracts for the emitted-code families of package fastreflection, read by the verifier in /verif (govc).
+// Comments only. The generated closures and methods have no name in this repository until they are generated, so
+// their contracts are schemas instantiated per message from its descriptor (struct tags + Go types) by the verifier;
+// the anchors below bind each family to the template that emits it. The lemmas are the spec-level inverse laws that
+// connect the encoder's spec (C02) with the decoder's spec (C03) for the round-trip property (C01).
+
+package fastreflection
+
+//@ emitted-by genSizeMethod: size
+//@ emitted-by genMarshalMethod: marshal
+//@ emitted-by genUnmarshalMethod: unmarshal
+//@ emitted-by genGet: Get
+//@ emitted-by genSet: Set
+//@ emitted-by genHas: Has
+//@ emitted-by genClear: Clear
+//@ emitted-by genMutable: Mutable
+//@ emitted-by genNewField: NewField
+//@ emitted-by genRange: Range
+//@ emitted-by genWhichOneof: WhichOneof
+
+//@ lemma zigzag64-inverse (x:uint64) mode bv property C01: (ZigZag64(x) >> 1) ^ (0 - (ZigZag64(x) & 1)) == x
+//@ lemma zigzag32-inverse (x:uint32) mode bv property C01: (ZigZag32(x) >> 1) ^ (0 - (ZigZag32(x) & 1)) == x
+//@ lemma int32-through-64-bit-varint (s:int32) mode bv property C01: int32(uint32(uint64(int64(s)))) == s
+//@ lemma uint32-through-64-bit-varint (u:uint32) mode bv property C01: uint32(uint64(u)) == u
+//@ lemma sint32-through-64-bit-varint (s:int32) mode bv property C01: (uint32(uint64(ZigZag32(uint32(s)))) >> 1) ^ (0 - (uint32(uint64(ZigZag32(uint32(s)))) & 1)) == uint32(s)
+//@ lemma varint-length-range (v:uint64) mode bv property C01: 1 <= VarintLen(v) && VarintLen(v) <= 10
+//@ lemma varint-bytes-terminate (v:uint64) mode bv property C01: VarintByte(v, VarintLen(v) - 1) < 0x80
+//@ lemma varint-bytes-continue (v:uint64, k:int) mode bv property C01: 0 <= k && k < VarintLen(v) - 1 ==> VarintByte(v, k) >= 0x80
+//@ lemma varint-decode-of-encode (v:uint64, a:bytes, p:int) mode bv property C01: 0 <= p && p < 1000000 && (forall k in [0, VarintLen(v)): a[p+k] == VarintByte(v, k)) ==> VarintVal(a, p) == v && VarintEnd(a, p) == p + VarintLen(v) - 1
